@@ -276,10 +276,11 @@ func lbvcCheckImage(img *lbvcCrashImage, opts Options) (bad string) {
 	if hw := l.HighWatermark(); hw > img.hw {
 		return fmt.Sprintf("%s: recovered high watermark %d is above the one before the crash (%d)", where, hw, img.hw)
 	}
-	// the leader-epoch history of the reopened log matches the messages it holds (append workload only: the other
-	// workloads trim the history on purpose): one more message of the newest epoch is appended, then for every epoch
+	// the leader-epoch history of the reopened log matches the messages it holds (append and truncation workloads, whose
+	// logs are dense: a truncation cuts the history at the same offset as the log, and only AFTER the messages are gone;
+	// compaction and retention rebuild / move the history on purpose): one more message of the newest epoch is appended, then for every epoch
 	// change in the log the end of the earlier epoch is where the later one's first message is
-	if strings.Contains(img.desc, "workload append") {
+	if strings.Contains(img.desc, "workload append") || strings.Contains(img.desc, "workload truncate") {
 		eps := lbvcReadEpochs(l)
 		if n := l.NewestOffset(); n >= 0 && len(eps) > 0 {
 			if _, err := l.Append([]*Message{{MagicByte: 1, Key: []byte("same"), Value: []byte("epoch"), Timestamp: 998, LeaderEpoch: eps[n]}}); err == nil {
